@@ -24,6 +24,10 @@ func isNondetSource(name string) bool {
 	if strings.HasPrefix(name, "golang.org/x/exp/maps.Keys") || strings.HasPrefix(name, "golang.org/x/exp/maps.Values") || strings.HasPrefix(name, "maps.Keys") || strings.HasPrefix(name, "maps.Values") {
 		return true // key/value order of a map: indeterminate unless sorted before use (see sortedAfter)
 	}
+	// the execution mode of the node-local run (mempool check, re-check, simulation): what a handler does must not depend on it
+	if name == "(sdk/types.Context).IsCheckTx" || name == "(sdk/types.Context).IsReCheckTx" || name == "(sdk/types.Context).ExecMode" {
+		return true
+	}
 	return strings.HasPrefix(name, "math/rand.") || strings.HasPrefix(name, "(*math/rand.") || strings.HasPrefix(name, "crypto/rand.") ||
 		strings.HasPrefix(name, "math/rand/v2.") || name == "github.com/pborman/uuid.NewRandom" || strings.HasPrefix(name, "github.com/google/uuid.New")
 }
